@@ -288,6 +288,14 @@ class SArray:
         c = cur()
         levels = loops.active_levels()
         fam_guards = list(getattr(c, 'fam_guards', []))       # conditions on the generic index under which this store executes
+        # facts learned so far inside the enclosing if-converted arms (definitions of division witnesses ...): they hold for every iteration
+        # that takes the arm, and are instantiated at the writer iteration whenever the stored value is looked up
+        arm_facts = []
+        conds_so_far = []
+        for (acond, amark) in getattr(c, 'arm_marks', []):
+            conds_so_far.append(acond)
+            for fz in c.pc[amark + 1:]:
+                arm_facts.append(z3.Implies(z3.And(*conds_so_far), fz))
         old_fn = self.fn
         nd = len(self.shape)
         i0 = []
@@ -336,6 +344,8 @@ class SArray:
                 c.guards.pop()
             loops.check_closed(newv, min(before, levels[0].stamp), allowed=loops.level_names(levels) + [str(x.z) for x in ph if hasattr(x, 'z')])
             newv = loops.subst(newv, pairs + [(zint(a), zint(b)) for a, b in zip(ph, idx)])
+            for fz in arm_facts:
+                c.assume_raw(loops.subst_z(fz, pairs))
             if cond is True:
                 return newv
             return ite_val(cond, newv, old_fn(idx))
